@@ -460,6 +460,292 @@ class _Annotations(ast.NodeTransformer):
         return ast.copy_location(ast.Assign(targets=[node.target], value=node.value), node)
 
 
+class _BoundMethodLocals(ast.NodeTransformer):
+    """`append = out.append` ... `append(x)`: a local bound once to a bound method of a local object and only ever called is that
+    method call (`out.append(x)`), provided the receiver name is never re-bound in the function (a micro-optimisation idiom)."""
+
+    def visit_FunctionDef(self, node):
+        self.generic_visit(node)
+        cands = {}
+        stores = {}
+        for n in ast.walk(node):
+            if isinstance(n, ast.Name) and isinstance(n.ctx, (ast.Store, ast.Del)):
+                stores[n.id] = stores.get(n.id, 0) + 1
+        params = {a.arg for a in node.args.posonlyargs + node.args.args + node.args.kwonlyargs}
+        for st in node.body:
+            if isinstance(st, ast.Assign) and len(st.targets) == 1 and isinstance(st.targets[0], ast.Name) and isinstance(st.value, ast.Attribute):
+                base = st.value
+                while isinstance(base, ast.Attribute):
+                    base = base.value
+                if isinstance(base, ast.Name) and stores.get(st.targets[0].id) == 1 and st.targets[0].id not in params \
+                        and (stores.get(base.id, 0) == 0 and base.id in params or stores.get(base.id, 0) == 1 and base.id not in params):
+                    cands[st.targets[0].id] = st
+        if not cands:
+            return node
+        parents = {}
+        for par in ast.walk(node):
+            for ch in ast.iter_child_nodes(par):
+                parents[id(ch)] = par
+        for name, st in list(cands.items()):
+            loads = [n for n in ast.walk(node) if isinstance(n, ast.Name) and n.id == name and isinstance(n.ctx, ast.Load)]
+            if not loads or not all(isinstance(parents.get(id(n)), ast.Call) and parents[id(n)].func is n for n in loads):
+                del cands[name]
+                continue
+            # a receiver that is itself a local must be bound before the alias (textual order at the top level of the body)
+            base = st.value
+            while isinstance(base, ast.Attribute):
+                base = base.value
+            if base.id not in params:
+                idx = node.body.index(st)
+                if not any(isinstance(n, ast.Name) and n.id == base.id and isinstance(n.ctx, ast.Store) for b in node.body[:idx] for n in ast.walk(b)):
+                    del cands[name]
+            # attribute receivers (`self.items.append`): the attribute must not be re-bound in the function
+            v = st.value.value
+            if name in cands and isinstance(v, ast.Attribute) and any(isinstance(n, ast.Attribute) and n.attr == v.attr and isinstance(n.ctx, ast.Store) for n in ast.walk(node)):
+                del cands[name]
+        if not cands:
+            return node
+        import copy
+
+        class R(ast.NodeTransformer):
+            def visit_Name(self, n):
+                if isinstance(n.ctx, ast.Load) and n.id in cands:
+                    return ast.copy_location(copy.deepcopy(cands[n.id].value), n)
+                return n
+
+        drop = {id(st) for st in cands.values()}
+        node.body = [R().visit(b) for b in node.body if id(b) not in drop]
+        return node
+
+    visit_AsyncFunctionDef = visit_FunctionDef
+
+
+def _two_d(e):
+    """syntactically a 2-D array: allocator with a 2-tuple shape, `X[:, np.newaxis]`, `X.reshape(-1, 1)`, two-slice subscript"""
+    if isinstance(e, ast.Call):
+        d = _dotted(e.func) or ""
+        if d in ("np.zeros", "np.ones", "np.empty", "np.full") and e.args and isinstance(e.args[0], ast.Tuple) and len(e.args[0].elts) == 2:
+            return True
+        if d == "np.eye":
+            return True
+        if isinstance(e.func, ast.Attribute) and e.func.attr == "reshape" and len(e.args) == 2:
+            return True
+    if isinstance(e, ast.Subscript) and isinstance(e.slice, ast.Tuple) and len(e.slice.elts) == 2:
+        a, b = e.slice.elts
+        if isinstance(a, ast.Slice) and (isinstance(b, ast.Slice) or ast.unparse(b) in ("np.newaxis", "None")):
+            return True
+    return False
+
+
+class _Synonyms(ast.NodeTransformer):
+    """spellings that denote the same object / value for every input, brought to the spelling the reference tree uses:
+    X[:, None] = X[:, np.newaxis]; pd.CategoricalDtype = pd.api.types.CategoricalDtype; sorted(set(x)) = sorted(list(set(x)));
+    range(0, n) = range(n); `in (c1, c2)` = `in [c1, c2]` for constants; np.concatenate(T, axis=1) = np.column_stack(T) (both need
+    2-D blocks; column_stack only accepts more); np.hstack(T) = np.column_stack(T) and np.concatenate(T, axis=0) = np.vstack(T)
+    when one operand is syntactically 2-D (then 1-D operands make either form raise); under `if X.ndim == 1:` X.reshape(-1, 1)
+    and np.expand_dims(X, 1) are X[:, np.newaxis]."""
+
+    def visit_Subscript(self, node):
+        self.generic_visit(node)
+        if isinstance(node.slice, ast.Tuple) and any(isinstance(e, ast.Constant) and e.value is None for e in node.slice.elts):
+            node.slice.elts = [ast.copy_location(ast.Attribute(value=ast.Name(id="np", ctx=ast.Load()), attr="newaxis", ctx=ast.Load()), e)
+                               if isinstance(e, ast.Constant) and e.value is None else e for e in node.slice.elts]
+        return node
+
+    def visit_Attribute(self, node):
+        self.generic_visit(node)
+        if node.attr == "CategoricalDtype" and isinstance(node.value, ast.Name) and node.value.id == "pd" and isinstance(node.ctx, ast.Load):
+            node.value = ast.copy_location(ast.Attribute(value=ast.Attribute(value=ast.Name(id="pd", ctx=ast.Load()), attr="api", ctx=ast.Load()),
+                                                         attr="types", ctx=ast.Load()), node.value)
+        return node
+
+    def visit_Set(self, node):
+        self.generic_visit(node)
+        # {*X} == set(X)
+        if len(node.elts) == 1 and isinstance(node.elts[0], ast.Starred):
+            return ast.copy_location(ast.Call(func=ast.Name(id="set", ctx=ast.Load()), args=[node.elts[0].value], keywords=[]), node)
+        return node
+
+    def visit_BinOp(self, node):
+        self.generic_visit(node)
+        # S & set(...) == S.intersection(set(...)),  S | set(...) == S.union(set(...)): the right operand is a set by construction
+        def is_set(e):
+            return isinstance(e, (ast.Set, ast.SetComp)) or isinstance(e, ast.Call) and _dotted(e.func) in ("set", "frozenset")
+        if isinstance(node.op, (ast.BitAnd, ast.BitOr)) and is_set(node.right) and not is_set(node.left):
+            meth = "intersection" if isinstance(node.op, ast.BitAnd) else "union"
+            return ast.copy_location(ast.Call(func=ast.Attribute(value=node.left, attr=meth, ctx=ast.Load()), args=[node.right], keywords=[]), node)
+        return node
+
+    def visit_List(self, node):
+        self.generic_visit(node)
+        # [*A, x, *B]  ==  A + [x] + B  for lists A, B (a name / an attribute is taken to be a list, anything else goes through list())
+        if isinstance(node.ctx, ast.Load) and any(isinstance(e, ast.Starred) for e in node.elts):
+            parts, run = [], []
+            for e in node.elts:
+                if isinstance(e, ast.Starred):
+                    if run:
+                        parts.append(ast.List(elts=run, ctx=ast.Load()))
+                        run = []
+                    v = e.value
+                    parts.append(v if isinstance(v, (ast.Name, ast.Attribute)) else ast.Call(func=ast.Name(id="list", ctx=ast.Load()), args=[v], keywords=[]))
+                else:
+                    run.append(e)
+            if run:
+                parts.append(ast.List(elts=run, ctx=ast.Load()))
+            if len(parts) == 1 and not isinstance(parts[0], ast.List):
+                parts[0] = ast.Call(func=ast.Name(id="list", ctx=ast.Load()), args=[parts[0]], keywords=[])
+            out = parts[0]
+            for p_ in parts[1:]:
+                out = ast.BinOp(left=out, op=ast.Add(), right=p_)
+            return ast.copy_location(out, node)
+        return node
+
+    def visit_Compare(self, node):
+        self.generic_visit(node)
+        if len(node.ops) == 1 and isinstance(node.ops[0], (ast.In, ast.NotIn)) and isinstance(node.comparators[0], ast.Tuple) \
+                and node.comparators[0].elts and all(isinstance(e, ast.Constant) for e in node.comparators[0].elts):
+            node.comparators[0] = ast.copy_location(ast.List(elts=node.comparators[0].elts, ctx=ast.Load()), node.comparators[0])
+        return node
+
+    def visit_Call(self, node):
+        self.generic_visit(node)
+        d = _dotted(node.func) or ""
+        # axis by name (pandas): 'columns' is 1, 'index' / 'rows' is 0
+        for k in node.keywords:
+            if k.arg == "axis" and isinstance(k.value, ast.Constant) and k.value.value in ("columns", "index", "rows"):
+                k.value = ast.copy_location(ast.Constant(value=1 if k.value.value == "columns" else 0), k.value)
+        # f(*(generator)) == f(*[list comprehension]): the arguments are unpacked eagerly either way
+        node.args = [ast.copy_location(ast.Starred(value=ast.ListComp(elt=a.value.elt, generators=a.value.generators), ctx=ast.Load()), a)
+                     if isinstance(a, ast.Starred) and isinstance(a.value, ast.GeneratorExp) else a for a in node.args]
+        if d == "sorted" and len(node.args) == 1 and not node.keywords and isinstance(node.args[0], ast.Call) and _dotted(node.args[0].func) == "set" \
+                and len(node.args[0].args) == 1:
+            node.args[0] = ast.copy_location(ast.Call(func=ast.Name(id="list", ctx=ast.Load()), args=[node.args[0]], keywords=[]), node.args[0])
+        elif d in ("np.logical_not", "np.invert") and len(node.args) == 1 and not node.keywords and (
+                isinstance(node.args[0], ast.Compare) or isinstance(node.args[0], ast.Call) and isinstance(node.args[0].func, ast.Attribute)
+                and node.args[0].func.attr in ("any", "all", "isna", "isnull", "notna", "isin")):
+            # on a boolean array logical_not / invert are `~`
+            return ast.copy_location(ast.UnaryOp(op=ast.Invert(), operand=node.args[0]), node)
+        elif d == "range" and len(node.args) == 2 and isinstance(node.args[0], ast.Constant) and node.args[0].value == 0 and not node.keywords:
+            node.args = node.args[1:]
+        elif d == "np.concatenate" and len(node.args) == 1 and len(node.keywords) == 1 and node.keywords[0].arg == "axis" \
+                and isinstance(node.keywords[0].value, ast.Constant) and isinstance(node.args[0], (ast.List, ast.Tuple, ast.Name, ast.ListComp)):
+            ax = node.keywords[0].value.value
+            ops = node.args[0].elts if isinstance(node.args[0], (ast.List, ast.Tuple)) else []
+            if ax == 1:
+                node.func = ast.copy_location(ast.Attribute(value=ast.Name(id="np", ctx=ast.Load()), attr="column_stack", ctx=ast.Load()), node.func)
+                node.keywords = []
+            elif ax == 0 and ops and all(isinstance(o, ast.Call) and _dotted(o.func) == "np.atleast_2d" and len(o.args) == 1 for o in ops):
+                # numpy's own definition of vstack
+                node.func = ast.copy_location(ast.Attribute(value=ast.Name(id="np", ctx=ast.Load()), attr="vstack", ctx=ast.Load()), node.func)
+                node.args = [ast.List(elts=[o.args[0] for o in ops], ctx=ast.Load())]
+                node.keywords = []
+            elif ax == 0 and any(_two_d(o) for o in ops):
+                node.func = ast.copy_location(ast.Attribute(value=ast.Name(id="np", ctx=ast.Load()), attr="vstack", ctx=ast.Load()), node.func)
+                node.keywords = []
+        elif d == "np.hstack" and len(node.args) == 1 and not node.keywords and isinstance(node.args[0], (ast.List, ast.Tuple)) \
+                and any(_two_d(o) for o in node.args[0].elts):
+            node.func = ast.copy_location(ast.Attribute(value=ast.Name(id="np", ctx=ast.Load()), attr="column_stack", ctx=ast.Load()), node.func)
+        return node
+
+    def visit_If(self, node):
+        self.generic_visit(node)
+        # if X.ndim == 1: X = X.reshape(-1, 1)   ->   X = X[:, np.newaxis]
+        t = node.test
+        if isinstance(t, ast.Compare) and len(t.ops) == 1 and isinstance(t.ops[0], ast.Eq) and isinstance(t.left, ast.Attribute) and t.left.attr == "ndim" \
+                and isinstance(t.comparators[0], ast.Constant) and t.comparators[0].value == 1:
+            x = ast.unparse(t.left.value)
+            for st in node.body:
+                if isinstance(st, ast.Assign) and isinstance(st.value, ast.Call):
+                    v = st.value
+                    txt = ast.unparse(v)
+                    if txt in (f"{x}.reshape(-1, 1)", f"{x}.reshape((-1, 1))", f"np.expand_dims({x}, 1)", f"np.expand_dims({x}, axis=1)", f"np.expand_dims({x}, -1)",
+                               f"np.expand_dims({x}, axis=-1)", f"{x}.reshape(len({x}), 1)", f"{x}.reshape({x}.shape[0], 1)"):
+                        st.value = ast.copy_location(ast.parse(f"{x}[:, np.newaxis]", mode="eval").body, v)
+        return node
+
+
+class _UnrollLiteralDictComp(ast.NodeTransformer):
+    """{k: v for t, names in ((f, ("a", "b")), (g, ("c",))) for k in names}: a dict comprehension whose generators run over literal
+    displays is the dict display it spells (same keys, same order, later duplicates win in both forms)"""
+
+    def visit_DictComp(self, node):
+        self.generic_visit(node)
+        import copy
+
+        def subst(e, env):
+            class S(ast.NodeTransformer):
+                def visit_Name(self, n):
+                    return copy.deepcopy(env[n.id]) if isinstance(n.ctx, ast.Load) and n.id in env else n
+            return S().visit(copy.deepcopy(e))
+
+        def bind(target, value, env):
+            if isinstance(target, ast.Name):
+                env[target.id] = value
+                return True
+            if isinstance(target, (ast.Tuple, ast.List)) and isinstance(value, (ast.Tuple, ast.List)) and len(target.elts) == len(value.elts) \
+                    and not any(isinstance(x, ast.Starred) for x in list(target.elts) + list(value.elts)):
+                return all(bind(t, v, env) for t, v in zip(target.elts, value.elts))
+            return False
+
+        pairs = []
+
+        def go(i, env):
+            if len(pairs) > 64:
+                return False
+            if i == len(node.generators):
+                pairs.append((subst(node.key, env), subst(node.value, env)))
+                return True
+            g = node.generators[i]
+            if g.ifs or g.is_async:
+                return False
+            it = subst(g.iter, env)
+            if not isinstance(it, (ast.Tuple, ast.List)) or any(isinstance(x, ast.Starred) for x in it.elts):
+                return False
+            for elt in it.elts:
+                e2 = dict(env)
+                if not bind(g.target, elt, e2) or not go(i + 1, e2):
+                    return False
+            return True
+
+        if go(0, {}) and pairs and len(pairs) <= 64:
+            return ast.copy_location(ast.Dict(keys=[k for k, _v in pairs], values=[v for _k, v in pairs]), node)
+        return node
+
+
+class _DictBuild(ast.NodeTransformer):
+    """n = dict(A) ; n.update(B)   (consecutive statements)   ->   n = {**A, **B}"""
+
+    def _block(self, stmts):
+        out = []
+        for st in stmts:
+            prev = out[-1] if out else None
+            if (isinstance(st, ast.Expr) and isinstance(st.value, ast.Call) and isinstance(st.value.func, ast.Attribute) and st.value.func.attr == "update"
+                    and isinstance(st.value.func.value, ast.Name) and len(st.value.args) == 1 and not st.value.keywords
+                    and isinstance(prev, ast.Assign) and len(prev.targets) == 1 and isinstance(prev.targets[0], ast.Name)
+                    and prev.targets[0].id == st.value.func.value.id
+                    and not any(isinstance(n, ast.Name) and n.id == prev.targets[0].id for n in ast.walk(st.value.args[0]))):
+                v = prev.value
+                parts = None
+                if isinstance(v, ast.Call) and _dotted(v.func) == "dict" and len(v.args) == 1 and not v.keywords:
+                    parts = [v.args[0]]
+                elif isinstance(v, ast.Dict) and v.keys and all(k is None for k in v.keys):
+                    parts = list(v.values)
+                if parts is not None:
+                    new = ast.Dict(keys=[None] * (len(parts) + 1), values=parts + [st.value.args[0]])
+                    prev.value = ast.copy_location(new, v)
+                    continue
+            out.append(st)
+        return out
+
+    def generic_visit(self, node):
+        super().generic_visit(node)
+        for fld in ("body", "orelse", "finalbody"):
+            sub = getattr(node, fld, None)
+            if isinstance(sub, list) and sub and isinstance(sub[0], ast.stmt):
+                setattr(node, fld, self._block(sub))
+        return node
+
+
 def desugar(tree):
     if any(isinstance(n, (ast.Match, ast.NamedExpr)) for n in ast.walk(tree)):
         tree = _Desugar().visit(tree)
@@ -474,9 +760,18 @@ def desugar(tree):
     if any(isinstance(n, ast.Call) and isinstance(n.func, ast.Name) and n.func.id in ("list", "set") and len(n.args) == 1
            and isinstance(n.args[0], ast.GeneratorExp) for n in ast.walk(tree)):
         tree = _Displays().visit(tree)
+    if any(isinstance(n, ast.Call) and isinstance(n.func, ast.Name) and n.func.id in ("append", "add", "extend", "update", "insert") for n in ast.walk(tree)) or \
+            any(isinstance(n, ast.Assign) and isinstance(n.value, ast.Attribute) and n.value.attr in ("append", "add", "extend", "update", "insert", "get")
+                for n in ast.walk(tree)):
+        tree = _BoundMethodLocals().visit(tree)
     if any(isinstance(n, ast.AnnAssign) for n in ast.walk(tree)):
         tree = _Annotations().visit(tree)
     if "slice" in names and not any(isinstance(n, ast.Name) and n.id == "slice" and isinstance(n.ctx, ast.Store) for n in ast.walk(tree)):
         tree = _Defaults().visit(tree)
+    tree = _Synonyms().visit(tree)
+    if any(isinstance(n, ast.DictComp) and isinstance(n.generators[0].iter, (ast.Tuple, ast.List)) for n in ast.walk(tree)):
+        tree = _UnrollLiteralDictComp().visit(tree)
+    if any(isinstance(n, ast.Call) and isinstance(n.func, ast.Attribute) and n.func.attr == "update" for n in ast.walk(tree)):
+        tree = _DictBuild().visit(tree)
     ast.fix_missing_locations(tree)
     return tree
